@@ -8,6 +8,7 @@
 // z=null-terminated pointer; hex = fixed-width big-endian hex per code unit.
 #include "upa/url.h"
 #include <cstdio>
+#include <algorithm>
 #include <cctype>
 #include <cstdint>
 #include <cstdlib>
@@ -126,10 +127,18 @@ struct view_like {
     std::size_t length() const { return n; }
 };
 
+// the 'v' form hands the library a pointer into an EXACTLY sized heap buffer with no terminator behind it, so
+// that reading even one code unit past the end is an out-of-bounds access the sanitizer sees
+template <class CharT>
+struct tight_copy {
+    std::unique_ptr<CharT[]> p; std::size_t n;
+    tight_copy(const CharT* s, std::size_t len) : p(new CharT[len]), n(len) { std::copy(s, s + len, p.get()); }
+};
+
 // S is bound to the argument in the requested encoding and form, then CALL is evaluated
 #define WITH_FORMS(STR, CT, S, CALL) \
     switch (k_.form) { \
-    case 'v': { const view_like<CT> S{ (STR).data(), (STR).length() }; ArmGuard ag_; CALL; } break; \
+    case 'v': { const tight_copy<CT> tc_((STR).data(), (STR).length()); const view_like<CT> S{ tc_.p.get(), tc_.n }; ArmGuard ag_; CALL; } break; \
     case 'z': { const CT* S = (STR).c_str(); ArmGuard ag_; CALL; } break; \
     default:  { const auto& S = (STR); ArmGuard ag_; CALL; } break; \
     }
@@ -149,12 +158,12 @@ struct view_like {
 // two string arguments in the same encoding (forms: both as std::basic_string / view)
 #define WITH_STR2(T1, T2, S1, S2, CALL) do { const Tok& a_ = (T1); const Tok& b_ = (T2); \
     switch (a_.enc) { \
-    case 'h': if (a_.form == 'v') { const view_like<char16_t> S1{a_.s16.data(), a_.s16.size()}; const view_like<char16_t> S2{b_.s16.data(), b_.s16.size()}; ArmGuard ag_; CALL; } \
+    case 'h': if (a_.form == 'v') { const tight_copy<char16_t> t1_(a_.s16.data(), a_.s16.size()), t2_(b_.s16.data(), b_.s16.size()); const view_like<char16_t> S1{t1_.p.get(), t1_.n}; const view_like<char16_t> S2{t2_.p.get(), t2_.n}; ArmGuard ag_; CALL; } \
               else { const auto& S1 = a_.s16; const auto& S2 = b_.s16; ArmGuard ag_; CALL; } break; \
-    case 'w': if (a_.form == 'v') { const view_like<char32_t> S1{a_.s32.data(), a_.s32.size()}; const view_like<char32_t> S2{b_.s32.data(), b_.s32.size()}; ArmGuard ag_; CALL; } \
+    case 'w': if (a_.form == 'v') { const tight_copy<char32_t> t1_(a_.s32.data(), a_.s32.size()), t2_(b_.s32.data(), b_.s32.size()); const view_like<char32_t> S1{t1_.p.get(), t1_.n}; const view_like<char32_t> S2{t2_.p.get(), t2_.n}; ArmGuard ag_; CALL; } \
               else { const auto& S1 = a_.s32; const auto& S2 = b_.s32; ArmGuard ag_; CALL; } break; \
     case 'W': { const auto& S1 = a_.sw; const auto& S2 = b_.sw; ArmGuard ag_; CALL; } break; \
-    default:  if (a_.form == 'v') { const view_like<char> S1{a_.s8.data(), a_.s8.size()}; const view_like<char> S2{b_.s8.data(), b_.s8.size()}; ArmGuard ag_; CALL; } \
+    default:  if (a_.form == 'v') { const tight_copy<char> t1_(a_.s8.data(), a_.s8.size()), t2_(b_.s8.data(), b_.s8.size()); const view_like<char> S1{t1_.p.get(), t1_.n}; const view_like<char> S2{t2_.p.get(), t2_.n}; ArmGuard ag_; CALL; } \
               else if (a_.form == 'z' && !a_.has_nul && !b_.has_nul) { const char* S1 = a_.s8.c_str(); const char* S2 = b_.s8.c_str(); ArmGuard ag_; CALL; } \
               else { const auto& S1 = a_.s8; const auto& S2 = b_.s8; ArmGuard ag_; CALL; } break; \
     } } while (0)
@@ -567,15 +576,15 @@ static std::string run_cmd(const std::vector<std::string>& a) {
     }
     // ---- leaf functions
     if (c == "ipv4") { need(1); Tok t; if (!parse_tok(a[1], t)) return "ERR"; uint32_t v = 0; validation_errc r = validation_errc::ok;
-        switch (t.enc) { case 'h': r = ipv4_parse(t.s16.data(), t.s16.data() + t.s16.size(), v); break; case 'w': r = ipv4_parse(t.s32.data(), t.s32.data() + t.s32.size(), v); break; default: r = ipv4_parse(t.s8.data(), t.s8.data() + t.s8.size(), v); }
+        switch (t.enc) { case 'h': { const tight_copy<char16_t> tc(t.s16.data(), t.s16.size()); r = ipv4_parse(tc.p.get(), tc.p.get() + tc.n, v); } break; case 'w': { const tight_copy<char32_t> tc(t.s32.data(), t.s32.size()); r = ipv4_parse(tc.p.get(), tc.p.get() + tc.n, v); } break; default: { const tight_copy<char> tc(t.s8.data(), t.s8.size()); r = ipv4_parse(tc.p.get(), tc.p.get() + tc.n, v); } }
         if (r != validation_errc::ok) return "ipv4 fail"; std::string o; ipv4_serialize(v, o); return "ipv4 ok " + std::to_string(v) + " " + hx(o); }
     if (c == "ipv4ser") { need(1); const uint32_t v = static_cast<uint32_t>(std::strtoul(a[1].c_str(), nullptr, 10)); std::string o; ipv4_serialize(v, o);
         uint32_t back = 0; const auto r = ipv4_parse(o.data(), o.data() + o.size(), back); return "ipv4ser " + hx(o) + " back=" + ((r == validation_errc::ok && back == v) ? "1" : "0"); }
     if (c == "endsnum") { need(1); Tok t; if (!parse_tok(a[1], t)) return "ERR"; bool r = false;
-        switch (t.enc) { case 'h': r = hostname_ends_in_a_number(t.s16.data(), t.s16.data() + t.s16.size()); break; case 'w': r = hostname_ends_in_a_number(t.s32.data(), t.s32.data() + t.s32.size()); break; default: r = hostname_ends_in_a_number(t.s8.data(), t.s8.data() + t.s8.size()); }
+        switch (t.enc) { case 'h': { const tight_copy<char16_t> tc(t.s16.data(), t.s16.size()); r = hostname_ends_in_a_number(tc.p.get(), tc.p.get() + tc.n); } break; case 'w': { const tight_copy<char32_t> tc(t.s32.data(), t.s32.size()); r = hostname_ends_in_a_number(tc.p.get(), tc.p.get() + tc.n); } break; default: { const tight_copy<char> tc(t.s8.data(), t.s8.size()); r = hostname_ends_in_a_number(tc.p.get(), tc.p.get() + tc.n); } }
         return std::string("endsnum ") + (r ? "1" : "0"); }
     if (c == "ipv6") { need(1); Tok t; if (!parse_tok(a[1], t)) return "ERR"; uint16_t ad[8]; validation_errc r = validation_errc::ok;
-        switch (t.enc) { case 'h': r = ipv6_parse(t.s16.data(), t.s16.data() + t.s16.size(), ad); break; case 'w': r = ipv6_parse(t.s32.data(), t.s32.data() + t.s32.size(), ad); break; default: r = ipv6_parse(t.s8.data(), t.s8.data() + t.s8.size(), ad); }
+        switch (t.enc) { case 'h': { const tight_copy<char16_t> tc(t.s16.data(), t.s16.size()); r = ipv6_parse(tc.p.get(), tc.p.get() + tc.n, ad); } break; case 'w': { const tight_copy<char32_t> tc(t.s32.data(), t.s32.size()); r = ipv6_parse(tc.p.get(), tc.p.get() + tc.n, ad); } break; default: { const tight_copy<char> tc(t.s8.data(), t.s8.size()); r = ipv6_parse(tc.p.get(), tc.p.get() + tc.n, ad); } }
         if (r != validation_errc::ok) return "ipv6 fail"; std::string o; ipv6_serialize(ad, o); std::ostringstream os; os << "ipv6 ok"; for (int i = 0; i < 8; ++i) os << " " << ad[i]; os << " " << hx(o); return os.str(); }
     if (c == "ipv6ser") { need(8); uint16_t ad[8]; for (int i = 0; i < 8; ++i) ad[i] = static_cast<uint16_t>(std::strtoul(a[1 + i].c_str(), nullptr, 10)); std::string o; ipv6_serialize(ad, o);
         uint16_t back[8]; const auto r = ipv6_parse(o.data(), o.data() + o.size(), back); bool same = r == validation_errc::ok; for (int i = 0; same && i < 8; ++i) same = back[i] == ad[i];
@@ -696,19 +705,82 @@ int main(int argc, char** argv) {
     // multithreaded mode (C19): every thread replays the whole stream on thread-private objects;
     // all threads are released together so that the very first IDNA conversion is contended
     std::vector<std::string> lines; { std::string line; while (std::getline(*in, line)) lines.push_back(line); }
-    if (warmup) { upa::url w; w.parse("http://b\xC3\xBCcher.example/", nullptr); }
+    if (warmup) { upa::url w; w.parse("http://b\xC3\xBC" "cher.example/", nullptr); }
     std::vector<std::vector<std::string>> outs(nthreads);
     std::mutex m; std::condition_variable cv; int ready = 0; bool go = false;
     std::vector<std::thread> th;
+    // Objects DERIVED from one source object before the threads start (copy, copy-assignment, move of a copy,
+    // copy of the source's search-params object): they are distinct objects, so each thread may use its own
+    // concurrently with thread 0 using the source.  Hidden sharing between an object and what it was copied
+    // from shows as a ThreadSanitizer report or as a final state that differs from the sequential expectation.
+    struct Derived { std::unique_ptr<upa::url> cp, asg, mv; std::unique_ptr<upa::url_search_params> snap, snap2; };
+    const char* kSrc = "https://user:pw@b\xC3\xBC" "cher.example:8443/a/b/../c?z=26&y=25&x=%C3%BC&w#frag";
+    auto make_src = [&](upa::url& u) { u.parse(kSrc, nullptr); u.search_params(); };
+    auto use_url = [](upa::url& u, int t) {
+        std::string acc;
+        for (int i = 0; i < 20; ++i) {
+            u.search_params().append("t" + std::to_string(t), std::to_string(i));
+            if (i % 4 == 0) u.search_params().sort();
+            if (i % 5 == 0) u.search_params().del("y");
+            u.hash("h" + std::to_string(i)); u.pathname("/p" + std::to_string(t) + "/" + std::to_string(i));
+            if (i % 7 == 0) u.hostname(i % 2 ? "xn--bcher-kva.example" : "m\xC3\xBCnchen.example");
+            acc = std::string(u.href().data(), u.href().length());
+        }
+        return acc + " | " + u.search_params().to_string();
+    };
+    auto use_usp = [](upa::url_search_params& p, int t) {
+        for (int i = 0; i < 30; ++i) {
+            p.append("s" + std::to_string(t), std::to_string(i));
+            if (i % 3 == 0) p.sort();
+            if (i % 5 == 0) p.set("x", std::to_string(i));
+            if (i % 6 == 0) p.del("w");
+        }
+        return p.to_string();
+    };
+    upa::url src; make_src(src);
+    std::vector<Derived> der(nthreads);
+    for (int t = 0; t < nthreads; ++t) {
+        der[t].cp.reset(new upa::url(src));
+        der[t].asg.reset(new upa::url()); der[t].asg->search_params(); *der[t].asg = src;
+        { upa::url tmp(src); tmp.search_params(); der[t].mv.reset(new upa::url(std::move(tmp))); }
+        der[t].snap.reset(new upa::url_search_params(src.search_params()));
+        der[t].snap2.reset(new upa::url_search_params()); *der[t].snap2 = src.search_params();
+    }
+    std::vector<std::string> dres(nthreads);
+    std::string derived_line;
     for (int t = 0; t < nthreads; ++t) {
         th.emplace_back([&, t] {
             { std::unique_lock<std::mutex> lk(m); ++ready; cv.notify_all(); cv.wait(lk, [&] { return go; }); }
+            std::string d;
+            if (t == 0) d += "src:" + use_url(src, 0) + " ";
+            d += "cp:" + use_url(*der[t].cp, t) + " asg:" + use_url(*der[t].asg, t) + " mv:" + use_url(*der[t].mv, t);
+            d += " snap:" + use_usp(*der[t].snap, t) + " snap2:" + use_usp(*der[t].snap2, t);
+            dres[t] = d;
             for (const auto& l : lines) outs[t].push_back(process_line(l));
             for (int i = 0; i < NSLOT; ++i) { g_url[i].reset(); g_usp[i].reset(); g_sp[i] = nullptr; }
         });
     }
     { std::unique_lock<std::mutex> lk(m); cv.wait(lk, [&] { return ready == nthreads; }); go = true; cv.notify_all(); }
     for (auto& x : th) x.join();
+    // the sequential expectation of the derived-object phase, computed on fresh objects after the join
+    {
+        bool all_same = true; std::string first_bad;
+        for (int t = 0; t < nthreads; ++t) {
+            upa::url s2; make_src(s2);
+            upa::url c2(s2), a2; a2.search_params(); a2 = s2;
+            upa::url tmp(s2); tmp.search_params(); upa::url m2(std::move(tmp));
+            upa::url_search_params n2(s2.search_params()), n3; n3 = s2.search_params();
+            std::string e;
+            if (t == 0) e += "src:" + use_url(s2, 0) + " ";
+            e += "cp:" + use_url(c2, t) + " asg:" + use_url(a2, t) + " mv:" + use_url(m2, t);
+            e += " snap:" + use_usp(n2, t) + " snap2:" + use_usp(n3, t);
+            if (e != dres[t] && all_same) { all_same = false; first_bad = "thread " + std::to_string(t) + " got [" + dres[t].substr(0, 300) + "] expected [" + e.substr(0, 300) + "]"; }
+        }
+        // the source itself, used only by thread 0, must not have been touched through any derived object
+        std::cout.flush();
+        if (!src.is_valid()) { all_same = false; first_bad = "the source object is not valid"; }
+        derived_line = all_same ? "THREAD derived-objects same" : "THREAD derived-objects DIFFER " + first_bad;
+    }
     // thread 0's transcript, then for every other thread the index of the first differing line (or "same")
     for (const auto& l : outs[0]) std::cout << l << "\n";
     for (int t = 1; t < nthreads; ++t) {
@@ -716,6 +788,7 @@ int main(int argc, char** argv) {
         if (k == outs[0].size() && k == outs[t].size()) std::cout << "THREAD " << t << " same\n";
         else std::cout << "THREAD " << t << " differs-at " << k << " " << (k < outs[t].size() ? outs[t][k] : std::string("<missing>")) << "\n";
     }
+    std::cout << derived_line << "\n";
     std::cout.flush();
     return 0;
 }
